@@ -1,4 +1,6 @@
 """E4 rules on the splice geometry of resize_rr / insert_rr (C09.a) and on the arithmetic of the insertion size limit (C10.b)."""
+import re
+
 from analysis import facts as F
 from analysis.e4 import E4
 from analysis.interp import Int, Enum
@@ -178,3 +180,236 @@ def insert_rule(ctx, facts, cfg, rid_geo, rid_lim, limit):
             ctx.violation(rid_lim, key, 'resize-above-limit', 'insert_rr can resize the packet to %s bytes; the limit is %d' % ('an unbounded number of' if any(h is None for h in his) else max(his), limit), config=cfg)
     else:
         ctx.violation(rid_lim, key, 'no-resize-probe', 'the resize of the packet buffer in insert_rr was not reached by the analysis', kind='undecided', config=cfg)
+
+
+# ------------------------------------------------------------------------------------------------------------------
+# Shift closures: `offset_X = offset_X.map(|x| ..)` in the two splice routines.  Each closure is analysed by E4 on its own,
+# return paths kept apart, under the stated assumption that offsets and splice amounts are below 2^32 in magnitude (a packet is
+# at most 64 KiB), so that the isize/usize casts are the identity.
+BOUND = 1 << 32
+CURSOR_CALLS = ('DNSIterable::offset', 'DNSIterable::offset_next')
+
+
+def _closure_of_map(f, defs, s):
+    """(closure def key, [capture operand, ...]) for the statement `X = Option::map(old, closure)` (through copies)"""
+    rv = s['rv']
+    if rv['k'] != 'use':
+        return None
+    l = F.op_local(rv['x'])
+    for _ in range(6):
+        d = defs.get(l) if l is not None else None
+        if d is None:
+            return None
+        if d[0] == 'call':
+            t = d[1]
+            if not (F.call_path(t) or '').endswith('Option::<T>::map') or len(t['args']) < 2:
+                return None
+            cd = defs.get(F.op_local(t['args'][1]))
+            if cd and cd[0] == 'rv' and cd[1]['k'] == 'aggregate' and cd[1].get('agg') == 'closure':
+                return cd[1].get('def'), cd[1]['ops']
+            return None
+        if d[0] == 'rv' and d[1]['k'] == 'use':
+            l = F.op_local(d[1]['x'])
+            continue
+        return None
+    return None
+
+
+def _analyse_closure(facts, key, ncap_kinds):
+    """Run E4 on a shift closure with bounded captures/argument; returns (x, captures, [(C, ret)]) or raises."""
+    from analysis.interp import State, Ref
+    f = facts.fns[key]
+    # capture types from the places `_1.i` read in the body
+    cap_ty = {}
+    def scan(o):
+        if isinstance(o, dict):
+            if o.get('local') == 1 and o.get('proj') and o['proj'][0].get('k') == 'field' and 'ty' in o:
+                if len(o['proj']) == 1:
+                    cap_ty[o['proj'][0]['i']] = o['ty']
+            for v in o.values():
+                scan(v)
+        elif isinstance(o, list):
+            for v in o:
+                scan(v)
+    scan(f['blocks'])
+    e4 = E4(facts, havoc=6)
+    an = e4.an
+    an.split_returns = True
+    st = State()
+    caps = {}
+    fields = {}
+    for i in range(ncap_kinds):
+        ty = cap_ty.get(i)
+        if ty is None:
+            continue
+        ity = ty['to'] if ty.get('k') == 'ref' else ty
+        if ity.get('k') != 'int':
+            raise ValueError('capture %d of %s is not an integer' % (i, key))
+        v = st.fresh_int(ity, 'cap%d' % i)
+        st.C.add(le(v.e, BOUND))
+        st.C.add(ge(v.e, -BOUND if ity.get('signed') else 0))
+        caps[i] = v.e
+        if ty.get('k') == 'ref':
+            cell = 'CAP%d:%s' % (i, key)
+            st.mem[cell] = v
+            st.mem[cell + '#ty'] = ity
+            fields[(0, i)] = Ref(cell)
+        else:
+            fields[(0, i)] = v
+    x = st.fresh_int(f['locals'][2], 'x')
+    st.C.add(le(x.e, BOUND))
+    for i, c in caps.items():
+        ty = cap_ty[i]
+        if (ty['to'] if ty.get('k') == 'ref' else ty).get('signed'):
+            st.C.add(ge(x.e + c, 0))   # stated: a (negative) splice amount never moves an offset below zero
+    env = Enum('(closure)' + key, 0, fields)
+    rets = an.analyze(key, [env, x], st)
+    return x.e, caps, [(s.C, v) for s, v in rets], e4
+
+
+def _classify_captures(facts, key, ckeys, insert):
+    """Run E4 on the splice routine and express each captured variable of its shift closures in the routine's entry symbols:
+    'amount' (= new buffer length - old buffer length, as handed to Vec::resize), 'cursor' (= the cursor's offset / offset_next,
+    or the start of the block moved by copy_within), else 'other'.  Returns {closure key: [kind, ...]}."""
+    from analysis.interp import Ref
+    e4 = E4(facts, havoc=6, opaque=OPAQUE, probes=[('Option::<T>::map', key), ('Vec::<T, A>::resize', key), ('<impl [T]>::copy_within', key)], assume_offsets_in_packet=insert)
+    S = e4.summarize(key)
+    ln = _len_sym(S)
+    amount = None
+    cursors = []
+    for p in e4.probes():
+        if p.get('kind') != 'call':
+            continue
+        if p['callee'].endswith('::resize') and ln is not None and len(p['args']) > 1 and isinstance(p['args'][1], Int):
+            amount = p['args'][1].e - ln
+        if p['callee'].endswith('copy_within') and insert:
+            rng = p['args'][1]
+            st_ = rng.fields.get((0, 0)) if isinstance(rng, Enum) else None
+            if isinstance(st_, Int):
+                cursors.append(st_.e)
+    if not insert:
+        off = _payloads(S, ['.offset']).get('.offset')
+        if off is not None:
+            cursors.append(off)
+        for loc, (v, cons, extra, ty) in S.init.items():
+            if loc.endswith('.offset_next') and isinstance(v, Int):
+                cursors.append(v.e)
+    out = {}
+    for p in e4.probes():
+        if p.get('kind') != 'call' or not p['callee'].endswith('::map') or len(p['args']) < 2:
+            continue
+        cl = p['args'][1]
+        if not isinstance(cl, Enum) or not cl.adt.startswith('(closure)'):
+            continue
+        ck = cl.adt[len('(closure)'):]
+        kinds = []
+        for i in range(len(cl.fields)):
+            fv = cl.fields.get((0, i))
+            v = p['mem'].get(fv.loc) if isinstance(fv, Ref) else fv
+            kind = 'other'
+            if isinstance(v, Int):
+                if amount is not None and p['C'].bounds(v.e - amount) == (0, 0):
+                    kind = 'amount'
+                elif any(p['C'].bounds(v.e - c) == (0, 0) for c in cursors):
+                    kind = 'cursor'
+            kinds.append(kind)
+        prev = out.get(ck)
+        out[ck] = kinds if prev is None else [a if a == b else 'other' for a, b in zip(prev, kinds)]
+    return out, amount is not None
+
+
+def shift_closure_rule(ctx, facts, cfg, rid):
+    """Every `offset_X = offset_X.map(closure)` in resize_rr / insert_rr: on each return path the closure yields either x + amount
+    (amount = the captured splice amount) or x unchanged; a path that leaves x unchanged must be confined to x <= cursor and a path
+    that shifts, when the closure looks at the cursor at all, to x >= cursor; the offset_edns closure of resize_rr (the OPT record can
+    sit on either side of the record being resized) must look at the cursor."""
+    targets = [(k, True) for k in facts.inst_keys('rr_iterator::TypedIterable::resize_rr')[:1]] + [('parsed_packet::ParsedPacket::insert_rr', False)]
+    n = 0
+    for key, positional in targets:
+        f = facts.fn(key) if not positional else facts.fns.get(key)
+        if f is None:
+            ctx.missing(rid, key)
+            continue
+        defs = F.single_defs(f)
+        fn_short = key.split('::')[-1].split('@')[0]
+        try:
+            capkinds, have_amount = _classify_captures(facts, key, None, not positional)
+        except Exception as e:  # noqa
+            ctx.violation(rid, key, 'undecided', 'cannot analyse %s: %s' % (fn_short, e), kind='undecided', config=cfg)
+            continue
+        if not have_amount:
+            ctx.violation(rid, key, 'no-resize-probe', 'the growth of the packet buffer in %s was not reached by the analysis: the splice amount is unknown' % fn_short, kind='undecided', config=cfg)
+            continue
+        for bi, b in F.blocks(f):
+            for s in b['stmts']:
+                if s['k'] != 'assign':
+                    continue
+                lf = F.last_field(s['place'])
+                if not lf or lf[0] != 'parsed_packet::ParsedPacket' or not str(lf[1]).startswith('offset_'):
+                    continue
+                cm = _closure_of_map(f, defs, s)
+                if cm is None:
+                    continue
+                ckey, ops = cm
+                field = lf[1]
+                n += 1
+                if ckey not in facts.fns:
+                    ctx.violation(rid, key, 'closure-body:' + field, 'the body of the closure that shifts %s in %s is not among the MIR bodies' % (field, fn_short), kind='anchor-missing', config=cfg)
+                    continue
+                kinds = capkinds.get(ckey)
+                if kinds is None:
+                    ctx.violation(rid, key, 'undecided:' + field, 'the closure shifting %s in %s was not reached by the analysis of %s' % (field, fn_short, fn_short), kind='undecided', config=cfg)
+                    continue
+                try:
+                    x, caps, cases, e4 = _analyse_closure(facts, ckey, len(kinds))
+                except Exception as e:  # noqa
+                    ctx.violation(rid, key, 'undecided:' + field, 'cannot analyse the closure shifting %s in %s: %s' % (field, fn_short, e), kind='undecided', config=cfg)
+                    continue
+                amounts = [caps[i] for i, k in enumerate(kinds) if k == 'amount' and i in caps]
+                cursors = [caps[i] for i, k in enumerate(kinds) if k == 'cursor' and i in caps]
+                problems = []
+                saw_identity = saw_shift = False
+                for C, v in cases:
+                    if C.infeasible():
+                        continue
+                    if not isinstance(v, Int):
+                        problems.append(('value', 'returns something the analysis cannot express as an integer'))
+                        continue
+                    d = v.e - x
+                    if C.bounds(d) == (0, 0):
+                        saw_identity = True
+                        if not any(C.entails(le(x, c)) for c in cursors):
+                            problems.append(('identity-unconfined', 'leaves the offset unchanged on a path that is not confined to offsets at or before the cursor: a section or OPT record behind the splice keeps its stale position'))
+                        continue
+                    if any(C.bounds(d - a) == (0, 0) for a in amounts):
+                        saw_shift = True
+                        if cursors and not any(C.entails(ge(x, c)) for c in cursors):
+                            problems.append(('shift-unconfined', 'shifts the offset on a path not confined to offsets at or behind the cursor'))
+                        continue
+                    problems.append(('amount', 'returns x %+s .. %+s, which is neither x nor x + the number of bytes spliced in or out' % C.bounds(d)))
+                if positional and field == 'offset_edns':
+                    if not cursors:
+                        problems.append(('edns-unconditional', 'does not look at the cursor: an OPT record located before the record being resized is moved although its bytes stay where they are'))
+                    elif not (saw_identity and saw_shift):
+                        problems.append(('edns-one-sided', 'has no path that %s' % ('leaves an OPT record before the cursor alone' if not saw_identity else 'moves an OPT record behind the cursor')))
+                elif not saw_shift:
+                    problems.append(('no-shift', 'never adds the splice amount'))
+                ok = not problems
+                ctx.instance(rid, '%s: closure shifting %s: %d return path(s), captures %s, each path x or x + amount with the right confinement' % (fn_short, field, len(cases), kinds), ok=ok, site=s.get('at'))
+                for tag, why in problems:
+                    ctx.violation(rid, key, '%s:%s' % (field, tag), '%s: the closure that updates %s %s' % (fn_short, field, why), site=s.get('at'), config=cfg)
+    for key, positional in targets:
+        if positional and key in facts.fns:
+            f = facts.fns[key]
+            defs = F.single_defs(f)
+            got = set()
+            for bi, b in F.blocks(f):
+                for s in b['stmts']:
+                    lf = F.last_field(s['place']) if s['k'] == 'assign' else None
+                    if lf and lf[0] == 'parsed_packet::ParsedPacket' and _closure_of_map(f, defs, s):
+                        got.add(lf[1])
+            for need in ('offset_answers', 'offset_nameservers', 'offset_additional', 'offset_edns'):
+                if need not in got:
+                    ctx.violation(rid, key, need + ':never-shifted', 'resize_rr has no statement that shifts %s: after a splice in front of it the recorded position is stale' % need, config=cfg)
+    if n < 13:
+        ctx.violation(rid, '<floor>', 'shift closures', 'found %d offset-shifting closures in resize_rr/insert_rr, expected 13 (4 + 9)' % n, kind='below-floor')
